@@ -773,8 +773,10 @@ def _put_one_Constant_kind(
                 self._put_src(None, ln, col, ln, col + 1, False)
 
         elif value == 'u':
-            if lines[ln][col : col + 1] in '\'"':
-                self._put_src(['u'], ln, col, ln, col, False, False)
+            if lines[ln][col : col + 1] not in '\'"':
+                raise ValueError("cannot set kind 'u' on a str Constant which has another prefix")
+
+            self._put_src(['u'], ln, col, ln, col, False, False)
 
         else:
             raise ValueError(f"expecting 'u' or None, got {value!r}")
